@@ -185,6 +185,7 @@ Section ScramServer.
                 let authmsg := cbare ++ bs "," ++ sfirst ++ bs "," ++ c ++ bs "," ++ r in
                 let csig := HMAC (sv_stored_key a) authmsg in
                 if bytes_eqb cb (gs2 ++ cbdata) && bytes_eqb nonce combined &&
+                   Nat.eqb (length proof) (length csig) &&
                    bytes_eqb (H (bxor csig proof)) (sv_stored_key a)
                 then Some (bs "v=" ++ b64enc (HMAC (sv_server_key a) authmsg))
                 else None
@@ -193,5 +194,66 @@ Section ScramServer.
         | _, _, _ => None
         end
     | _ => None
+    end.
+
+  (* ---- the RFC 5802 / 7677 / 9266 server for one exchange ----
+     configuration: is the mechanism a -PLUS variant, the channel binding the server's end of the connection reports
+     (type name and data), the server's part of the nonce; the account database maps the (unescaped) user name to the
+     stored credentials *)
+  Record srv_cfg := { sc_plus : bool; sc_cbname : bytes; sc_cbdata : bytes; sc_snonce : bytes }.
+
+  Record srv_state := { sx_acct : stored; sx_gs2 : bytes; sx_bare : bytes; sx_sfirst : bytes; sx_combined : bytes }.
+
+  (* gs2 header acceptable for the mechanism: -PLUS requires "p=<the server's binding type>,,"; otherwise "n,," or "y,," *)
+  Definition gs2_ok (c : srv_cfg) (gs2 : bytes) : bool :=
+    if sc_plus c then bytes_eqb gs2 (bs "p=" ++ sc_cbname c ++ bs ",,")
+    else bytes_eqb gs2 (bs "n,,") || bytes_eqb gs2 (bs "y,,").
+
+  Definition scram_server_first (c : srv_cfg) (db : bytes -> option stored) (cfirst : bytes) : option (srv_state * bytes) :=
+    match parse_client_first cfirst with
+    | None => None
+    | Some (gs2, user, cn, bare) =>
+        if negb (gs2_ok c gs2) then None else
+        match db user with
+        | None => None
+        | Some a =>
+            let sf := server_first cn (sc_snonce c) a in
+            Some ({| sx_acct := a; sx_gs2 := gs2; sx_bare := bare; sx_sfirst := sf; sx_combined := cn ++ sc_snonce c |}, sf)
+        end
+    end.
+
+  Definition scram_server_final (c : srv_cfg) (x : srv_state) (cfinal : bytes) : option bytes :=
+    server_final (sx_acct x) (sx_gs2 x) (if sc_plus c then sc_cbdata c else []) (sx_bare x) (sx_sfirst x) (sx_combined x) cfinal.
+
+  (* ---- one complete exchange between the go-mail client (scram_next) and this server, at the level of the SASL
+     messages: empty challenge, client-first, server-first, client-final, server-final, acknowledgement, success reply.
+     Result: did the server accept AND the client report success (having verified the server signature) *)
+  Definition scram_dialogue (hsize : nat) (precis : bytes -> option bytes) (cfg : scram_cfg) (id : scram_id)
+             (c : srv_cfg) (db : bytes -> option stored) (s0 : scram_state * list bytes) : bool :=
+    let next := scram_next H HMAC hsize precis cfg id in
+    match next s0 [] true with
+    | (s1, Some (Some cfirst)) =>
+        match scram_server_first c db cfirst with
+        | Some (x, sfirst) =>
+            match next s1 sfirst true with
+            | (s2, Some (Some cfinal)) =>
+                match scram_server_final c x cfinal with
+                | Some sfinal =>
+                    match next s2 sfinal true with
+                    | (s3, Some (Some ack)) =>
+                        is_nil ack && ss_verified (fst s3) &&
+                        match next s3 (bs "2.7.0 ok") false with
+                        | (_, Some None) => true
+                        | _ => false
+                        end
+                    | _ => false
+                    end
+                | None => false
+                end
+            | _ => false
+            end
+        | None => false
+        end
+    | _ => false
     end.
 End ScramServer.
